@@ -223,38 +223,41 @@ func runC02(p *Program, r *Result) {
 			if !inPkg(f, pkgStream) {
 				continue
 			}
-			tb := p.TB(f)
-			for _, ret := range returnsOf(f) {
-				ei := errorResultIndex(f.Signature)
-				if ei >= 0 && short(tb.Term(ret.Results[ei]).String()) == "io.EOF" {
-					n++
-					r.Bad(f.String(), "return:io.EOF", r.pos(ret), "io.EOF is returned directly")
-				}
+			if f.Parent() != nil {
+				continue // closures are visited with their parent
 			}
-			for _, b := range f.Blocks {
-				for _, in := range b.Instrs {
-					st, ok := in.(*ssa.Store)
-					if !ok || short(tb.Term(st.Val).String()) != "io.EOF" {
+			for _, pr := range p.producersOf(f, isEOFValue) {
+				switch pr.Kind {
+				case "arg":
+					if cn := calleeName(pr.At.(ssa.CallInstruction).Common()); cn == "errors.Is" || strings.HasPrefix(cn, "fmt.") {
 						continue
 					}
-					n++
-					if f != read {
-						r.Bad(f.String(), "store:io.EOF", r.pos(st), "io.EOF stored outside Reader.Read")
+				case "store":
+					if _, isIdx := pr.At.(*ssa.Store).Addr.(*ssa.IndexAddr); isIdx {
 						continue
 					}
-					facts := tb.FactsAt(b)
-					a1, ok1 := findFact(facts, func(a Atom) bool {
-						return a.Kind == "bool" && a.Pol && short(a.X.String()) == "(*stream.Reader).readChunk(Recv).0"
-					})
-					a2, ok2 := findFact(facts, func(a Atom) bool {
-						return a.Kind == "cmp" && a.Op == "==" && short(a.Y.String()) == "io.EOF" &&
-							strings.HasPrefix(short(a.X.String()), "invoke (io.Reader).Read(Field(Recv.src), ") && strings.HasSuffix(a.X.String(), ".1")
-					})
-					if ok1 && ok2 {
-						r.OK(f.String(), "store:io.EOF", r.pos(st), "", guardWitness(p, a1), guardWitness(p, a2))
-					} else {
-						r.Bad(f.String(), "store:io.EOF", r.pos(st), "the clean-EOF state is entered on a path not dominated by last == true and by the probe read returning io.EOF; facts: "+short(factStrings(facts)))
-					}
+				}
+				n++
+				if pr.Kind == "return" {
+					r.Bad(f.String(), "return:io.EOF", r.pos(pr.At), "io.EOF is returned directly")
+					continue
+				}
+				if f != read {
+					r.Bad(f.String(), "store:io.EOF", r.pos(pr.At), "io.EOF produced outside Reader.Read")
+					continue
+				}
+				facts := pr.Facts
+				a1, ok1 := findFact(facts, func(a Atom) bool {
+					return a.Kind == "bool" && a.Pol && short(a.X.String()) == "(*stream.Reader).readChunk(Recv).0"
+				})
+				a2, ok2 := findFact(facts, func(a Atom) bool {
+					return a.Kind == "cmp" && a.Op == "==" && short(a.Y.String()) == "io.EOF" &&
+						strings.HasPrefix(short(a.X.String()), "invoke (io.Reader).Read(Field(Recv.src), ") && strings.HasSuffix(a.X.String(), ".1")
+				})
+				if ok1 && ok2 {
+					r.OK(f.String(), "store:io.EOF", r.pos(pr.At), "", guardWitness(p, a1), guardWitness(p, a2))
+				} else {
+					r.Bad(f.String(), "store:io.EOF", r.pos(pr.At), "the clean-EOF state is entered on a path not dominated by last == true and by the probe read returning io.EOF; facts: "+short(factStrings(facts)))
 				}
 			}
 		}
@@ -406,8 +409,9 @@ func runC02(p *Program, r *Result) {
 					}
 					if st, ok := in.(*ssa.Store); ok && after {
 						if fa, ok := st.Addr.(*ssa.FieldAddr); ok && fieldName(fa.X.Type(), fa.Field) == "err" {
-							v := short(rtb.Term(st.Val).String())
-							state = isFreshNonSentinelError(st.Val) || v == "io.EOF" || strings.HasPrefix(v, "fmt.Errorf(")
+							sv := pa.Resolve(st.Val)
+							v := short(rtb.Term(sv).String())
+							state = isFreshNonSentinelError(sv) || v == "io.EOF" || strings.HasPrefix(v, "fmt.Errorf(")
 						}
 					}
 				}
